@@ -201,6 +201,15 @@ def translate(repo):
     if with_sat and "_get_int_attribute(node, 'saturate', None)" not in ast.unparse(cl):
         raise Untranslatable("cast_like: saturate is not read from the CastLike node as the model assumes")
     txt += f"Definition castlike_keeps_saturate : bool := {'true' if with_sat else 'false'}.\n"
+    # add: a symbolic dimension plus a negative constant is not recorded as a symbolic sum
+    addf = next((n for n in tree.body if isinstance(n, ast.FunctionDef) and n.name == "add"), None)
+    if addf is None:
+        raise Untranslatable("add evaluator not found")
+    neg_tests = [x for x in ast.walk(addf) if isinstance(x, ast.Compare) and isinstance(x.left, ast.Name) and x.left.id in ("dim0", "dim1")
+                 and len(x.ops) == 1 and isinstance(x.ops[0], ast.Lt) and isinstance(x.comparators[0], ast.Constant) and x.comparators[0].value == 0]
+    if len(neg_tests) not in (0, 2):
+        raise Untranslatable("add evaluator: unexpected sign tests")
+    txt += f"Definition add_rejects_negative_constant : bool := {'true' if neg_tests else 'false'}.\n"
     return txt, {"registry": [(d, o, lo, hi) for d, o, lo, hi, _ in registry], "order": order, "returns": n_ret,
                  "guard": guard, "clear_keeps": keep}
 
